@@ -45,7 +45,6 @@ def clear_caches():
 
 def analyse(prop, root, overrides=None, tier="quick"):
     """Run the property's rules once. Returns ctx (raises AnalysisError)."""
-    clear_caches()
     tree = Tree(root, overrides)
     ctx = Ctx(prop, tree, tier)
     mod = rules_module(prop)
@@ -86,7 +85,7 @@ def run_variants(prop, root, base_keys, only_controls):
     jobs = [(prop, root, v, base_keys) for v in vs]
     if not jobs:
         return []
-    if only_controls or len(jobs) < 4:
+    if len(jobs) < 3:
         return [run_variant(j) for j in jobs]
     import multiprocessing as mp
 
